@@ -383,11 +383,12 @@ def handle (line : String) : String :=
         if mode == "override" then "ok" ++ String.join ((emit v).map show1)
         else "ok" ++ String.join ((enc v).map (fun b => show1 (.push b)))
       | none => "bad-op"
-    | "wio", [.atom _adapter, .atom failAt, .atom _sched, v] =>
+    | "wio", [.atom adapter, .atom failAt, .atom _sched, v] =>
       match valOfSexp v with
       | some v =>
         let fa : Option Nat := if failAt == "none" then none else failAt.toNat?
-        match toIo v ⟨[], fa⟩ with
+        -- adapters ending in `ff`: the sink accepts everything and fails the final flush
+        match serializeWith (WriteFlF (!adapter.endsWith "ff")) ⟨[], fa⟩ v with
         | (_, .ok out) => "ok " ++ hexOfBytes out
         | (st, .error e) => s!"err {e.name} written={hexOfBytes st.written}"
       | none => "bad-op"
